@@ -285,3 +285,63 @@ func VH_C04_rerun() {
 	}
 	m.finish(err)
 }
+
+// function-style nodes: a Result-style (or Any-style) exec callback that fails may hand back any
+// value next to its error — a zero Result, a value Result, an error Result carrying the same error —
+// the run fails all the same, transparently, and nothing runs afterwards
+func VH_C04_funcNode() {
+	vUnwind(6)
+	m := &c04Mon{}
+	shape := vChoice("failingExecReturns", 4)
+	resultStyle := vNondet[bool]("resultStyle")
+	posts, later := 0, 0
+	n := NewNode(WithPostFuncAny(func(ctx context.Context, s *SharedStore, p, e any) (Action, error) {
+		m.enter()
+		posts++
+		return "next", nil
+	}))
+	if resultStyle {
+		vCover("result-style-exec")
+		n.WithExecFunc(func(ctx context.Context, p Result) (Result, error) {
+			m.enter()
+			err := m.end()
+			switch shape {
+			case 0:
+				return Result{}, err
+			case 1:
+				return NewResult(5), err
+			case 2:
+				vCover("error-result-next-to-the-error")
+				return NewErrorResult(err), err
+			default:
+				return NewErrorResult(vNewErr()), err // a different error inside the Result: the returned error counts
+			}
+		})
+	} else {
+		n.WithExecFuncAny(func(ctx context.Context, p any) (any, error) {
+			m.enter()
+			err := m.end()
+			switch shape {
+			case 0:
+				return nil, err
+			case 1:
+				return 5, err
+			default:
+				return NewErrorResult(err), err
+			}
+		})
+	}
+	after := &vSimpleNode{act: "end"}
+	flow := NewFlow(n)
+	flow.Connect(n, "next", after)
+	var err error
+	if vNondet[bool]("nested") {
+		outer := NewFlow(flow)
+		err = outer.Run(vNewCtx(), NewSharedStore())
+	} else {
+		err = flow.Run(vNewCtx(), NewSharedStore())
+	}
+	later = after.visits
+	vAssert(posts == 0 && later == 0, "no-callback-after-the-ending-error")
+	m.finish(err)
+}
